@@ -63,7 +63,7 @@ def _work(task):
                 out["findings"].append(rec)
                 continue
             seen.add(key)
-            if f.kind in ("PROP", "MEM", "UB", "NONFINITE"):
+            if f.kind in ("PROP", "MEM", "UB", "NONFINITE", "RANGE"):
                 try:
                     c = replay.confirm(_factory, harness, f, G["cfg"], G["replay_srcs"], "%d_%d" % (idx, len(out["findings"])),
                                        tol=G.get("tol", 1e-9))
@@ -156,7 +156,7 @@ def run_e2(res, cfg, src_names, instances, builder, wrappers=(), defs=(), replay
             if f.get("duplicate"):
                 continue
             sig = "%s%s:%s" % (group + "/" if group else "", (sigmap(o["name"]) if sigmap else o["name"]), f["label"])
-            if f["kind"] in ("PROP", "MEM", "UB", "NONFINITE"):
+            if f["kind"] in ("PROP", "MEM", "UB", "NONFINITE", "RANGE"):
                 if f["kind"] in tolerate or f["label"] in tolerate:
                     res.extra.setdefault("tolerated_findings", []).append({"instance": o["name"], "kind": f["kind"], "label": f["label"]})
                     continue
